@@ -15,7 +15,7 @@ publication. Commits of in-memory storage transactions (StructuredStorage<InMemo
 are classified by peeling the receiver type: their parent must itself be an in-memory transaction.
 The change set produced by a dry run is not handed to anything (dropped): in Executor::dry_run the
 changes of the produced result flow to no call; the executor's dry-run entry points are generic over a
-storage that is only required to be a (historical) view.
+storage that is only required to be a (historical) view. (4) the dry-run path never acquires the producer's production lock (block production does, as positive control).
 """
 NOT_DECIDED = """Determinism of repeated answers beyond the absence of non-chain inputs (wall clock, relayer progress, pool, randomness) on the producer- and executor-side dry-run paths; the wasm executor path (feature wasm-executor is not analysed)."""
 
